@@ -32,6 +32,7 @@ def convert(
     ast_root: ast.Module, symtable_root: symtable.SymbolTable, configs: Configs
 ) -> ast.expr:
     pending_node_stack: list[PendingNode] = []
+    utils.mangle_private_names(ast_root)
     nsp_global = generate_nsp(symtable_root, configs)
     nsp_stack: list[Namespace] = [nsp_global]
 
